@@ -391,6 +391,28 @@ class _Prov:
     def geom_type(self):
         return "Polygon"
 
+    # size of the geometry (symbolic: a shortcut that depends on the geometry's extent is followed both ways)
+    SPAN = [None, None]
+
+    @property
+    def boundingbox(self):
+        sx, sy = _Prov.SPAN
+        return _SpanBox(sx, sy)
+
+    @property
+    def is_empty(self):
+        return False
+
+
+class _SpanBox:
+    def __init__(self, sx, sy):
+        self.span_x, self.span_y = sx, sy
+        self.left, self.bottom, self.right, self.top = 0.0, 0.0, sx, sy
+        self.bbox = (0.0, 0.0, sx, sy)
+
+    def __iter__(self):
+        return iter(self.bbox)
+
 
 class _GhostCRS:
     __hash__ = None
@@ -424,8 +446,9 @@ def _find(g, tag):
     return None
 
 
-def _lemma_to_crs_flow(src_cls, dst_cls, geographic, resolution, wrapdateline, check_and_fix, valid):
+def _lemma_to_crs_flow(src_cls, dst_cls, geographic, resolution, wrapdateline, check_and_fix, valid, span_x=1.0, span_y=1.0):
     m = repo(GEOM)
+    _Prov.SPAN[:] = [span_x, span_y]
     me = _Prov("input", (), _GhostCRS(src_cls, False), valid=valid)
     dst = _GhostCRS(dst_cls, geographic)
     saved = (m.norm_crs_or_error, m.chop_along_antimeridian, m.clip_lon180, m._auto_resolution)
@@ -465,7 +488,7 @@ def _lemma_to_crs_flow(src_cls, dst_cls, geographic, resolution, wrapdateline, c
 lemma(
     "to_crs.densify_then_project",
     ["C07"],
-    inputs=dict(src_cls=Int(), dst_cls=Int(), geographic=Bool(), resolution=OneOf(None, "auto", Real(gt=0), float("inf")), wrapdateline=Bool(), check_and_fix=Bool(), valid=Bool()),
+    inputs=dict(src_cls=Int(), dst_cls=Int(), geographic=Bool(), resolution=OneOf(None, "auto", Real(gt=0), float("inf")), wrapdateline=Bool(), check_and_fix=Bool(), valid=Bool(), span_x=Real(ge=0), span_y=Real(ge=0)),
     body=_lemma_to_crs_flow,
     unstub=[f"{GEOM}:Geometry.to_crs"],
     note="data-flow of the real Geometry.to_crs over ghost collaborators: the argument of the projection (and of the date-line chopping) is the densified geometry",
